@@ -451,6 +451,9 @@ func cmdCheck(args []string) int {
 		case "global-write":
 			res = eng.scanGlobalWrites()
 			clause = "no package-level variable of the device/midi/config/input packages is written after init (devices share no mutable state)"
+		case "global-alias":
+			res = eng.scanGlobalAlias()
+			clause = "no mutable container obtained from a package-level variable becomes part of a device's state (devices share no mutable state)"
 		case "guarded-access":
 			res = eng.scanGuardedAccess()
 			clause = "goroutines started by functions under contract access guarded device state only with the guarding mutex held (must-lockset dataflow)"
